@@ -59,7 +59,7 @@ class Selection:
 
     def gen(self, rng, tier):
         cases = []
-        for _ in range(12 if tier == "thorough" else 6):
+        for i in range(12 if tier == "thorough" else 6):
             n = rng.randint(3, 5)
             dirs = ["outer", "outer/tests/fixtures/inner", "bps/dep-a", "bps/dep-b", "bps/dep-a/vendored/deep"][:n]
             rng.shuffle(dirs)
@@ -69,7 +69,8 @@ class Selection:
                 if rng.random() < 0.4:
                     deps.append(["uri", "docker://reg/img:1"])
                 comps.append({"dir": d, "id": "sel/" + d.split("/")[-1] + str(k), "deps": deps, "uri": ".", "os": None})
-            cwd = rng.choice([""] + dirs + dirs)
+            # every third workspace is packaged from its root (everything is selected there)
+            cwd = "" if i % 3 == 0 else rng.choice([""] + dirs + dirs)
             cases.append({"libs": [], "comps": comps, "foreign": [], "cwd": cwd, "release": False, "pkgdir": "default",
                           "seed_ids": [], "seed_kind": 0})
         return cases
